@@ -84,16 +84,46 @@ Theorem C11_checker_sound :
 Proof. exact chk_concat_sound. Qed.
 
 Theorem C11_model_passes :
-  forall a b : program, WF a -> WF b -> Concat_ok (obs_of a) (obs_of b) (obs_of (add a b)).
+  forall a b : program, WF a -> WF b -> replaced a b = false ->
+    Concat_ok (obs_of a) (obs_of b) (obs_of (add a b)).
 Proof. exact model_concat_ok. Qed.
 
+(** The union clause taken literally is REFUTED of the faithful model (and of the implementation,
+    after repair 1fc8c68): when B replaces a calibration of A whose old body mentions a qubit that
+    nothing else mentions, that qubit is in used(A) ∪ used(B) but not in used(A+B).  This is the
+    flip side of the C09/C10 repair (the union would be a stale cache); known finding
+    [union-after-calibration-replacement], class [union_class]. *)
+Definition C11_union_full : Prop :=
+  forall (a b : program) (q : N), WF a -> WF b ->
+    (In q (used (add a b)) <-> In q (used a) \/ In q (used b)).
+
+Theorem C11_union_refuted : ~ C11_union_full.
+Proof.
+  intros H.
+  specialize (H (from_instructions [Calib 0 1 [0; 5]]%N) (from_instructions [Calib 0 0 [0; 0]]%N) 5%N
+                (WF_from_instructions _) (WF_from_instructions _)).
+  assert (Hin : In 5%N (used (add (from_instructions [Calib 0 1 [0; 5]]%N) (from_instructions [Calib 0 0 [0; 0]]%N)))).
+  { apply H. left. vm_compute. tauto. }
+  vm_compute in Hin. intuition discriminate.
+Qed.
+
+(** Outside that class nothing else can go wrong with the cache: with the operands' caches in step,
+    used(A+B) is always a subset of the union. *)
+Theorem C11_used_subset_union :
+  forall a b : program, WF a -> WF b -> InvG a -> InvG b -> incl (used (add a b)) (used a ++ used b).
+Proof. exact used_add_incl. Qed.
+
 (** Non-vacuity: B rebinds a declaration and a calibration of A and adds a frame; A's keys stay in
-    place with B's values, B's new key follows, bodies are appended, caches united. *)
+    place with B's values, B's new key follows, bodies are appended; the calibration replacement
+    makes the cache the rebuilt one (qubit 5 of the replaced calibration is dropped: the strict
+    checker rejects, the pair is in [union_class]). *)
 Example C11_nonvacuous :
   let a := from_instructions [Decl 0 0; Calib 0 0 [0; 5]; Decl 1 0; Body 0 [0]]%N in
   let b := from_instructions [Decl 1 7; FrameDef 0 0 [0]; Calib 0 1 [0; 6]; Body 1 [1; 2]; Decl 2 0]%N in
   to_instructions (add a b) =
     [Decl 0 0; Decl 1 7; Decl 2 0; FrameDef 0 0 [0]; Calib 0 1 [0; 6]; Body 0 [0]; Body 1 [1; 2]]%N
   /\ replaced a b = true /\ used (add a b) = [0; 6; 0; 1; 2]%N
-  /\ chk_concat (obs_of a) (obs_of b) (obs_of (add a b)) = true.
+  /\ chk_concat (obs_of a) (obs_of b) (obs_of (add a b)) = false
+  /\ union_class (obs_of a) (obs_of b) (obs_of (add a b)) = true
+  /\ chk_concat (obs_of a) (obs_of empty) (obs_of (add a empty)) = true.
 Proof. vm_compute. repeat split; reflexivity. Qed.
